@@ -46,6 +46,8 @@ type pfModel struct {
 	NGo       int
 	FileParam types.Object
 	ProgObj   types.Object
+	ChanFields map[string]string // struct field holding a channel ("<fileParse>.rerr") -> name
+	ChanElem   map[string]types.Type // name -> element type
 }
 
 // goBody is the code a go statement runs: a function literal or a named function.
@@ -61,7 +63,34 @@ func (c *Ctx) parseFileModel() (*pfModel, error) {
 	if fd == nil {
 		return nil, fmt.Errorf("ParseFile not found")
 	}
-	m := &pfModel{Func: fd, Chans: map[types.Object]string{}, Files: map[types.Object]bool{}}
+	m := &pfModel{Func: fd, Chans: map[types.Object]string{}, Files: map[types.Object]bool{}, ChanFields: map[string]string{}, ChanElem: map[string]types.Type{}}
+	// channels made inside a struct literal (the goroutines' shared state kept in a struct)
+	ast.Inspect(fd.Body, func(n ast.Node) bool {
+		cl, ok := n.(*ast.CompositeLit)
+		if !ok {
+			return true
+		}
+		if _, isStruct := derefType(c.typeOf(cl)).Underlying().(*types.Struct); !isStruct {
+			return true
+		}
+		for _, el := range cl.Elts {
+			kv, ok := el.(*ast.KeyValueExpr)
+			if !ok {
+				continue
+			}
+			call, ok := kv.Value.(*ast.CallExpr)
+			if !ok || c.calleeName(call) != "make" {
+				continue
+			}
+			if ct, isChan := c.typeOf(call).Underlying().(*types.Chan); isChan {
+				if id, ok := kv.Key.(*ast.Ident); ok {
+					m.ChanFields["<"+typeShort(c.typeOf(cl))+">."+id.Name] = id.Name
+					m.ChanElem[id.Name] = ct.Elem()
+				}
+			}
+		}
+		return true
+	})
 	m.FileParam = c.paramObj(fd, 0)
 	m.Files[m.FileParam] = true
 	if fd.Type.Results != nil {
@@ -78,9 +107,10 @@ func (c *Ctx) parseFileModel() (*pfModel, error) {
 		case *ast.AssignStmt:
 			for i, r := range s.Rhs {
 				if call, ok := r.(*ast.CallExpr); ok && c.calleeName(call) == "make" {
-					if _, isChan := c.typeOf(call).Underlying().(*types.Chan); isChan && i < len(s.Lhs) {
+					if ct, isChan := c.typeOf(call).Underlying().(*types.Chan); isChan && i < len(s.Lhs) {
 						if id, ok := s.Lhs[i].(*ast.Ident); ok {
 							m.Chans[c.objOf(id)] = id.Name
+							m.ChanElem[id.Name] = ct.Elem()
 						}
 					}
 				}
@@ -155,18 +185,118 @@ func (c *Ctx) parseFileModel() (*pfModel, error) {
 	if m.Reader == nil || m.Parser == nil {
 		return m, fmt.Errorf("ParseFile: reader goroutine (calls f.Read) or parser goroutine (calls parseWithOpts) not found")
 	}
+	// the channels are known by their role, whatever they are called: inpc carries the chunks (strings), done is
+	// the empty-struct signal, rerr is the verdict channel the reader sends on, perr the one the parser sends on
+	sendsOn := func(body *ast.BlockStmt, name string) bool {
+		found := false
+		var scan func(b ast.Node, depth int)
+		scan = func(b ast.Node, depth int) {
+			ast.Inspect(b, func(n ast.Node) bool {
+				switch n := n.(type) {
+				case *ast.SendStmt:
+					if m.chanKeyName(c, n.Chan) == name {
+						found = true
+					}
+				case *ast.CallExpr:
+					if depth < 2 {
+						if fn, ok := c.callee(n).(*types.Func); ok && fn.Pkg() != nil && fn.Pkg().Path() == bclPath {
+							if hd := c.funcDecls[fn]; hd != nil && hd.Body != nil {
+								// channels handed on as arguments
+								for k, a := range n.Args {
+									if nm := m.chanKeyName(c, a); nm != "" {
+										if po := c.paramObj(hd, k); po != nil {
+											if _, has := m.Chans[po]; !has {
+												m.Chans[po] = nm
+											}
+										}
+									}
+								}
+								scan(hd.Body, depth+1)
+							}
+						}
+					}
+				}
+				return true
+			})
+		}
+		scan(body, 0)
+		return found
+	}
+	rename := map[string]string{}
+	for name, elem := range m.ChanElem {
+		switch u := elem.Underlying().(type) {
+		case *types.Basic:
+			if u.Info()&types.IsString != 0 {
+				rename[name] = "inpc"
+			}
+		case *types.Struct:
+			if u.NumFields() == 0 {
+				rename[name] = "done"
+			}
+		}
+		if _, done := rename[name]; done {
+			continue
+		}
+		switch {
+		case sendsOn(m.Reader.Body, name):
+			rename[name] = "rerr"
+		case sendsOn(m.Parser.Body, name):
+			rename[name] = "perr"
+		}
+	}
+	for k, v := range m.Chans {
+		if nv, ok := rename[v]; ok {
+			m.Chans[k] = nv
+		}
+	}
+	for k, v := range m.ChanFields {
+		if nv, ok := rename[v]; ok {
+			m.ChanFields[k] = nv
+		}
+	}
+	for old, nv := range rename {
+		if old != nv {
+			m.ChanElem[nv] = m.ChanElem[old]
+		}
+	}
 	return m, nil
 }
 
 func (m *pfModel) isFile(c *Ctx, e ast.Expr) bool {
 	o := c.objOfExpr(e)
-	return o != nil && m.Files[o]
+	if o != nil && m.Files[o] {
+		return true
+	}
+	// the input kept in a struct field: by its type
+	if _, isSel := stripParens(e).(*ast.SelectorExpr); isSel {
+		if t := c.typeOf(e); t != nil && isNamed(t, bclPath, "FileInput") {
+			return true
+		}
+	}
+	return false
+}
+
+// chanKeyName: the name under which the channel denoted by e is known to the model ("" when it is not one).
+func (m *pfModel) chanKeyName(c *Ctx, e ast.Expr) string {
+	e = stripParens(e)
+	if id, ok := e.(*ast.Ident); ok {
+		return m.Chans[c.objOf(id)]
+	}
+	if sel, ok := e.(*ast.SelectorExpr); ok {
+		return m.ChanFields[c.fieldPath(sel)]
+	}
+	return ""
 }
 
 func (c *Ctx) concHooks(m *pfModel) Hooks {
 	pay := func(st *State) *concPay { return st.P.(*concPay) }
 	var curSt *State
 	chName := func(e ast.Expr) string {
+		if sel, ok := stripParens(e).(*ast.SelectorExpr); ok {
+			if n, ok := m.ChanFields[c.fieldPath(sel)]; ok {
+				return n
+			}
+		}
 		if id, ok := stripParens(e).(*ast.Ident); ok {
 			if n, ok := m.Chans[c.objOf(id)]; ok {
 				return n
@@ -203,12 +333,15 @@ func (c *Ctx) concHooks(m *pfModel) Hooks {
 		switch {
 		case v.K == vTag && v.Tag == "nil":
 			return "nil"
-		case c.isObj(e, p.errObj) && p.errObj != nil:
+		case e != nil && c.isObj(e, p.errObj) && p.errObj != nil:
 			return "err"
 		case v.K == vTag && v.Tag == "readerr":
 			return "err"
 		case v.K == vTag:
 			return v.Tag
+		}
+		if e == nil {
+			return "value"
 		}
 		if id, ok := stripParens(e).(*ast.Ident); ok {
 			return id.Name
@@ -219,12 +352,46 @@ func (c *Ctx) concHooks(m *pfModel) Hooks {
 	h.SameEffect = func(a, b *State) bool { return strings.Join(pay(a).events, ";") == strings.Join(pay(b).events, ";") }
 	h.Send = func(in *Interp, st *State, s *ast.SendStmt, v Value) {
 		curSt = st
+		if v.K == vStruct {
+			// a message carrying several results: the program travels inside it (published by the send itself),
+			// the error is what the send is about
+			what := "value"
+			hasProg := false
+			for _, fv := range v.Fields {
+				if fv.K == vTag && fv.Tag == "prog" {
+					hasProg = true
+				}
+				if fv.K == vTag && (fv.Tag == "perr" || fv.Tag == "readerr" || fv.Tag == "nil") {
+					what = describe(st, nil, fv)
+				}
+			}
+			if hasProg {
+				pay(st).ev("store prog")
+			}
+			pay(st).ev("send " + chName(s.Chan) + " " + what)
+			return
+		}
 		pay(st).ev("send " + chName(s.Chan) + " " + describe(st, s.Value, v))
 	}
 	h.Recv = func(in *Interp, st *State, e *ast.UnaryExpr) (Value, bool) {
 		curSt = st
-		pay(st).ev("recv " + chName(e.X))
-		return tagV("recv:"+chName(e.X), nil), true
+		name := chName(e.X)
+		pay(st).ev("recv " + name)
+		if ct, ok := c.typeOf(e.X).Underlying().(*types.Chan); ok {
+			if stt, isStruct := ct.Elem().Underlying().(*types.Struct); isStruct && stt.NumFields() > 0 {
+				v := Value{K: vStruct, T: ct.Elem(), Fields: map[string]Value{}}
+				for i := 0; i < stt.NumFields(); i++ {
+					f := stt.Field(i)
+					if isErrorType(f.Type()) {
+						v.Fields[f.Name()] = tagV("recv:"+name, nil)
+					} else {
+						v.Fields[f.Name()] = tagV("recvpart:"+name, f.Name())
+					}
+				}
+				return v, true
+			}
+		}
+		return tagV("recv:"+name, nil), true
 	}
 	h.Go = func(in *Interp, st *State, s *ast.GoStmt) {
 		pay(st).ev("go")
@@ -257,6 +424,13 @@ func (c *Ctx) concHooks(m *pfModel) Hooks {
 		if m.ProgObj != nil && c.isObj(lhs, m.ProgObj) {
 			pay(st).ev("store prog")
 			return true
+		}
+		// the program handed over through a field of the shared state
+		if sel, ok := lhs.(*ast.SelectorExpr); ok && v.K == vTag && v.Tag == "prog" {
+			if o, isVar := c.objOf(sel).(*types.Var); isVar && o.IsField() {
+				pay(st).ev("store prog")
+				return true
+			}
 		}
 		return false
 	}
@@ -675,7 +849,21 @@ func ruleParserProtocol(c *Ctx, r *Report, rule string) {
 		r.bad(rule, "ParseFile", err.Error(), "")
 		return
 	}
-	in := newInterp(c, c.concHooks(m))
+	hk := c.concHooks(m)
+	hk.Inline = func(fn *types.Func) bool {
+		// small helpers choosing between errors are read through
+		if fn.Pkg() == nil || fn.Pkg().Path() != bclPath {
+			return false
+		}
+		sig := fn.Type().(*types.Signature)
+		for i := 0; i < sig.Params().Len(); i++ {
+			if isErrorType(sig.Params().At(i).Type()) {
+				return true
+			}
+		}
+		return false
+	}
+	in := newInterp(c, hk)
 	st := &State{Env: map[types.Object]Value{}, P: &concPay{}}
 	res := in.exec(st, m.Parser.Body)
 	pos := c.pos(m.Parser.Pos())
@@ -848,8 +1036,13 @@ func ruleChunkImmutable(c *Ctx, r *Report, rule string) {
 		if !isS {
 			return true
 		}
-		id, isID := stripParens(ss.Chan).(*ast.Ident)
-		if !isID || chanName[c.objOf(id)] != "inpc" {
+		name := ""
+		if id, isID := stripParens(ss.Chan).(*ast.Ident); isID {
+			name = chanName[c.objOf(id)]
+		} else {
+			name = m.chanKeyName(c, ss.Chan) // a channel kept in a struct field
+		}
+		if name != "inpc" {
 			return true
 		}
 		call, isC := ss.Value.(*ast.CallExpr)
@@ -878,6 +1071,9 @@ func ruleChunkImmutable(c *Ctx, r *Report, rule string) {
 				okType = types.TypeString(ch.Elem(), nil) == "string"
 			}
 		}
+	}
+	if et := m.ChanElem["inpc"]; et != nil && types.TypeString(et, nil) == "string" {
+		okType = true
 	}
 	r.check(ok && okType, rule, "chunk-copy", "inpc <- string(b[:n]) on a chan string", "reader: "+why, c.pos(m.Reader.Pos()))
 	// no unsafe in the library
